@@ -176,6 +176,12 @@ def emit():
                     wr = ["{}", "Vec<{}>", "Option<{}>"]
                 if bname in ("dw", "zw", "ew"):
                     wr = ["{}"]
+                # (the C04 runner — quick universe plus all mutants — sits at the linker's 2 GiB reach:
+                # the two name-collision bases get the wrappers that matter for them only)
+                if bname == "dn":
+                    wr = ["{}", "Vec<{}>"]
+                if bname == "zn":
+                    wr = ["{}", "Bound<{}>"] + (["RangeTo<{}>", "Vec<RangeTo<{}>>"] if d.zero else [])
                 for w in wr:
                     full = w.replace("{}", ty)
                     wl = w.replace("{}", "_").replace(" ", "")
